@@ -172,3 +172,68 @@ for _i, (_name, _ind, _pos, _d) in enumerate(_P3):
        funcs=["cdd.shared.docstring_parsers.parse_docstring", "cdd.shared.docstring_parsers._parse_phase_rest", "cdd.shared.docstring_parsers._set_param_values",
               "cdd.shared.docstring_parsers._fill_doc_with_afterward"],
        bound="%s docstring with footer (indent %d) and ANY code point inserted at offset %d: no header/footer prose inside any typ/default" % (_name, _ind, _pos))(_absorb(_d, _pos))
+
+
+# --- P4: style conversion keeps every header line, in order ---------------------------------------------------------------------
+HEAD = ("Summary line %s here.", "", "Long description first line.", "Second %s line of it.")
+SECTIONS = {
+    "rest": ":param a: desc a\n:type a: ```int```\n\n:return: ret\n:rtype: ```str```\n",
+    "google": "Args:\n  a (int): desc a\n\nReturns:\n  str:\n   ret\n",
+    "numpydoc": "Parameters\n----------\na : int\n    desc a\n\nReturns\n-------\nstr\n    ret\n",
+}
+
+
+def _convert(src_style, dst_style, carry_original):
+    def body(c0, c1):
+        import cdd.docstring.emit
+        import cdd.docstring.utils.parse_utils as pu
+        from cdd.shared.docstring_parsers import parse_docstring
+        from chx.shim import shim
+        from harness.shims import ADHOC_SHIMS
+
+        word = chr(c0) + chr(c1)
+        if word.strip() != word or "\n" in word or "\r" in word:
+            return ""
+        lines = [HEAD[0].replace("%s", word), HEAD[1], HEAD[2], HEAD[3].replace("%s", word)]
+        doc = "\n".join(lines) + "\n\n" + SECTIONS[src_style]
+        with shim(pu, **ADHOC_SHIMS):
+            try:
+                ir = parse_docstring(doc)
+            except Exception:
+                return ""
+            if carry_original:
+                ir["_internal"] = {"original_doc_str": doc}
+            try:
+                out = cdd.docstring.emit.docstring(ir, docstring_format=dst_style, word_wrap=False)
+            except Exception as e:
+                return "conversion raised %s: %s" % (type(e).__name__, e)
+        at = 0
+        for ln in lines:
+            t = ln.strip()
+            if not t:
+                continue
+            j = out.find(t, at)
+            if j < 0:
+                return "header line %r is missing (or out of order) in the converted docstring" % (t,)
+            at = j + len(t)
+        for name, e in list(ir["params"].items()) + (list(ir["returns"].items()) if ir.get("returns") else []):
+            for key in ("typ", "default"):
+                v = e.get(key)
+                if isinstance(v, str) and ("Summary line" in v or "Long description" in v):
+                    return "header prose absorbed into the %s of %s" % (key, name)
+        return ""
+
+    return body
+
+
+for _src in SECTIONS:
+    for _dst in SECTIONS:
+        if _src == _dst:
+            continue
+        for _carry in (True, False):
+            ob("C15", "P4.convert.%s_to_%s.%s" % (_src, _dst, "orig" if _carry else "noorig"), {"c0": R(33, 126), "c1": R(33, 126)}, pre="c0 != 47 and c1 != 47",
+               tier="quick" if (_carry and _src == "rest") or (not _carry and _dst == "rest") else "thorough", T=400,
+               funcs=["cdd.shared.docstring_parsers.parse_docstring", "cdd.docstring.emit.docstring", "cdd.shared.docstring_utils.parse_docstring_into_header_args_footer",
+                      "cdd.shared.docstring_utils.header_args_footer_to_str"],
+               bound="%s docstring with a 4-line header containing ANY 2 printable non-blank characters (twice), converted to %s %s the original docstring carried along: "
+                     "every header line present, in order; no header prose in a typ/default" % (_src, _dst, "with" if _carry else "without"))(_convert(_src, _dst, _carry))
